@@ -160,7 +160,33 @@ def py_encode(parts):
 
 CELLS = [("x = 1", "none"), ("1 + 2", "v"), ("1/0", "e"), ("x = 5\nx * 2", "v"), ("None", "none"),
          ("undefined_name_zz", "e"), ("'a' * 3", "v"), ("def f():\n    return 4\nf()", "v"), ("pass", "none"),
-         ("raise ValueError('boom')", "e"), ("print('hello')", "none"), ("log.info('out')\n7", "v")]
+         ("raise ValueError('boom')", "e"), ("print('hello')", "none"), ("log.info('out')\n7", "v"),
+         ("print('a')\nprint('b c')\n'r' + 's'", "v"), ("for i in range(3):\n    print(i)", "none"),
+         ("print('é ü')\n[1, 'two', None]", "v"), ("print('before')\n1/0", "e"), ("{'k': (1, 2)}", "v"),
+         ("print('')", "none"), ("''", "v"), ("0", "v")]
+# (print takes exactly one argument in pyscript – documented: "print(str): same as log.debug(str); currently print doesn't
+# support other arguments")
+
+
+def cell_expectation(code):
+    """what the cell produces according to CPython: (text/plain of the last expression or None, stdout text, exception class)"""
+    import ast
+    import contextlib
+    import io
+    if "log.info" in code:
+        return ("7", "out\n", None)           # pyscript's log.info is forwarded to the console as a stdout line
+    tree = ast.parse(code)
+    last = tree.body[-1] if tree.body and isinstance(tree.body[-1], ast.Expr) else None
+    body = tree.body[:-1] if last is not None else tree.body
+    ns, out, val, exc = {}, io.StringIO(), None, None
+    with contextlib.redirect_stdout(out):
+        try:
+            exec(compile(ast.Module(body=body, type_ignores=[]), "cell", "exec"), ns)  # pylint: disable=exec-used
+            if last is not None:
+                val = eval(compile(ast.Expression(body=last.value), "cell", "eval"), ns)  # pylint: disable=eval-used
+        except Exception as e:  # pylint: disable=broad-except
+            exc = type(e).__name__
+    return (None if val is None else repr(val), out.getvalue(), exc)
 MTYPES = ["execute_request", "execute_request", "execute_request", "kernel_info_request", "complete_request",
           "is_complete_request", "comm_info_request", "history_request", "comm_open", "comm_msg", "bogus_request"]
 
@@ -728,12 +754,21 @@ def shell_verdict(c):
             has_res = any(o["type"] == "execute_result" for o in iop)
             if has_res != (kind == "v"):
                 return f"request {r['req']}: execute_result presence {has_res} for cell kind {kind}"
-            if "print(" in CELLS[q["cell"]][0] or "log.info" in CELLS[q["cell"]][0]:
-                st = [i for i, o in enumerate(iop) if o["type"] == "stream"]
-                if not st:
-                    return f"request {r['req']}: stdout of the cell not delivered"
-                if st[-1] > len(iop) - 2:
-                    return f"request {r['req']}: stdout after idle"
+            want_val, want_out, want_exc = cell_expectation(CELLS[q["cell"]][0])
+            got_out = "".join(o["content"].get("text", "") for o in iop if o["type"] == "stream" and o["content"].get("name") == "stdout")
+            if got_out != want_out:
+                return f"request {r['req']}: stdout of the cell is {got_out!r}, the cell prints {want_out!r}"
+            st = [i for i, o in enumerate(iop) if o["type"] == "stream"]
+            if st and st[-1] > len(iop) - 2:
+                return f"request {r['req']}: stdout after idle"
+            res = [o["content"].get("data", {}).get("text/plain") for o in iop if o["type"] == "execute_result"]
+            if kind == "v" and res != [want_val]:
+                return f"request {r['req']}: execute_result {res}, the cell's value is {want_val!r}"
+            if kind == "e" and rep.get("ename") != want_exc:
+                return f"request {r['req']}: execute_reply ename {rep.get('ename')!r}, the cell raises {want_exc}"
+            inp = [o["content"] for o in iop if o["type"] == "execute_input"]
+            if len(inp) != 1 or inp[0].get("code") != CELLS[q["cell"]][0] or inp[0].get("execution_count") != count:
+                return f"request {r['req']}: execute_input broadcast {inp} does not show the cell / its count {count}"
             if q["store"]:
                 count += 1
         if r["count_after"] != count:
